@@ -123,6 +123,32 @@ def parseOp (isMap : Bool) (ts : List String) : Option Op :=
         | _ => none
   | _ => none
 
+/-- the by-reference operations of the harness: `insref r rank` = `insert(x)` with `x` a reference to the
+element stored at rank `rank` of the same container, likewise `inshref` (insert with hint), `er1ref` / `eraref`
+(`erase_one(key)` / `erase(key)` with a reference to the stored key), `findref` / `lbref` / `ubref` / `countref`.
+The model's operations take their arguments by value, so these lines are the plain operations with the
+entry read from the register: the line is rewritten before `parseOp`; `none` = rank out of range (`bad-op`). -/
+def resolveRef (isMap : Bool) (m : MSt) (ts : List String) : Option (List String) :=
+  match ts with
+  | [op, r, rank] =>
+    let plain : Option String :=
+      if op = "insref" then some "ins" else if op = "inshref" then some "insh"
+      else if op = "er1ref" then some "er1" else if op = "eraref" then some "era"
+      else if op = "findref" then some "find" else if op = "lbref" then some "lb"
+      else if op = "ubref" then some "ub" else if op = "countref" then some "count" else none
+    match plain with
+    | none => some ts
+    | some o =>
+      match reg r, num rank with
+      | some rr, some k =>
+        match (m.get rr).toList[k]? with
+        | none => none
+        | some e =>
+          if o = "ins" ∨ o = "insh" then some [o, r, toString e.1, toString (if isMap then e.2 else 0)]
+          else some [o, r, toString e.1]
+      | _, _ => none
+  | _ => some ts
+
 /-- does the harness print the ledger and both tree dumps after this operation -/
 def Op.mutating : Op → Bool
   | .ins .. | .idx .. | .insr .. | .rctor .. | .er1 .. | .era .. | .eri .. | .clear .. | .bulk .. | .copy ..
@@ -186,7 +212,7 @@ def step (s : St) (ts : List String) : St × String :=
     match s.cfg with
     | none => (s, "bad-op")
     | some c =>
-      match parseOp c.isMap ts with
+      match (resolveRef c.isMap s.m ts).bind (parseOp c.isMap) with
       | none => (s, "bad-op")
       | some op =>
         match stepA c { m := s.m, a0 := s.a0, a1 := s.a1 } op with
